@@ -4,6 +4,7 @@
 From stdpp Require Import gmap.
 From DS Require Import Base RepoConstants Decimal StreamValue Aggregators Outcome OutcomeCodec ObservationCodec MercuryAgg MercuryReport
   TextForms EvmInt EvmCodecs EvmSpec PluginReports OutcomeCodecProofs EvmCodecProofs NoPanicProofs ReportsNoPanic.
+From DS Require Observe ValidateProofs.
 
 Example C11_gen_widths_complete : evm_type_widths = solidity_widths.
 Proof. reflexivity. Qed.
@@ -39,6 +40,13 @@ Theorem C11_aggregators_no_panic : forall vs f,
   is_panic (median_agg vs f) = false /\ is_panic (quote_agg vs f) = false /\ is_panic (mode_agg vs f) = false.
 Proof. intros vs f. exact (conj (median_agg_no_panic vs f) (conj (quote_agg_no_panic vs f) (mode_agg_no_panic vs f))). Qed.
 Print Assumptions C11_aggregators_no_panic.
+
+(* ---- LLO Observation as a whole: any previous-outcome bytes, any cache / data-source behaviour short of a panic of theirs ---- *)
+Theorem C11_observation_no_panic : forall codec_ok cf seq prev_bytes now cache_att should_retire expected source_vals source_fails,
+  is_panic cache_att = false -> is_panic should_retire = false ->
+  is_panic (plugin_observation codec_ok cf seq prev_bytes now cache_att should_retire expected source_vals source_fails) = false.
+Proof. exact ValidateProofs.plugin_observation_no_panic. Qed.
+Print Assumptions C11_observation_no_panic.
 
 (* ---- LLO Reports as a whole: ANY outcome bytes (well-formed bytes), any sequence number, any configuration ----
    `codecs` is the table of registered report codecs, `retire_enc` the (external, JSON) retirement-report codec.
